@@ -449,14 +449,25 @@ func (r *intraProxyStreamReceiver) sendPendingWatermarkToShard(targetShardID his
 			SourceShard: msg.SourceShard,
 			Resp:        clonedResp,
 		}
-		select {
-		case sendChan <- clonedMsg:
-			r.logger.Debug("Sent pending watermark to local shard",
-				tag.NewStringTag("targetShard", ClusterShardIDtoString(targetShardID)))
-		default:
-			r.logger.Warn("Failed to send pending watermark to local shard (channel full)",
-				tag.NewStringTag("targetShard", ClusterShardIDtoString(targetShardID)))
-		}
+		// The owning sender may close its channel at any time (stream shutdown); guard the send
+		// as proxyStreamReceiver.sendPendingWatermarkToShard does. This runs in memberlist's
+		// delegate goroutine: an unrecovered panic here takes the process down.
+		func() {
+			defer func() {
+				if panicErr := recover(); panicErr != nil {
+					r.logger.Warn("Failed to send pending watermark to local shard (channel closed)",
+						tag.NewStringTag("targetShard", ClusterShardIDtoString(targetShardID)))
+				}
+			}()
+			select {
+			case sendChan <- clonedMsg:
+				r.logger.Debug("Sent pending watermark to local shard",
+					tag.NewStringTag("targetShard", ClusterShardIDtoString(targetShardID)))
+			default:
+				r.logger.Warn("Failed to send pending watermark to local shard (channel full)",
+					tag.NewStringTag("targetShard", ClusterShardIDtoString(targetShardID)))
+			}
+		}()
 		return
 	}
 
